@@ -54,14 +54,14 @@ def apply_edit(root: str, v: dict) -> bool:
         path = os.path.join(root, e["file"])
         if not os.path.exists(path):
             return False
-        if e["file"].endswith(".gz"):
+        with open(path, "rb") as fh:
+            raw = fh.read()
+        gz = raw[:2] == b"\x1f\x8b"
+        if gz:
             import gzip
 
-            with gzip.open(path, "rt") as fh:
-                src = fh.read()
-        else:
-            with open(path) as fh:
-                src = fh.read()
+            raw = gzip.decompress(raw)
+        src = raw.decode("utf-8")
         if "fn" in e:
             new = e["fn"](src)
             if new is None or new == src:
@@ -71,14 +71,13 @@ def apply_edit(root: str, v: dict) -> bool:
                 return False
             cnt = e.get("count", 1)
             new = src.replace(e["old"], e["new"], cnt)
-        if e["file"].endswith(".gz"):
+        data = new.encode("utf-8")
+        if gz:
             import gzip
 
-            with gzip.open(path, "wt") as fh:
-                fh.write(new)
-        else:
-            with open(path, "w") as fh:
-                fh.write(new)
+            data = gzip.compress(data)
+        with open(path, "wb") as fh:
+            fh.write(data)
     return True
 
 
